@@ -4,6 +4,8 @@ import (
 	"fmt"
 	"math/rand"
 	"os"
+	"sync"
+	"time"
 	"path/filepath"
 	"sort"
 	"strings"
@@ -50,6 +52,12 @@ func init() {
 				return 40
 			}
 			return d.graphs*((1<<d.maxN)/c07Chunk) + d.sampled
+		},
+		Modes: func(tier string) []string {
+			if tier == "thorough" {
+				return []string{"plain", "race"}
+			}
+			return []string{"plain"}
 		},
 		Exhaustive:    func(tier string) bool { return false },
 		CaseTimeout:   300e9,
@@ -167,6 +175,10 @@ func restore(dir, tag string, files map[string][]byte, chosen map[string]bool) {
 }
 
 func runC07(c *fw.Case) {
+	if c.Mode == "race" {
+		runC07Race(c)
+		return
+	}
 	d := c07Domain(c.Tier)
 	chunks := (1 << d.maxN) / c07Chunk
 	exhaustive := c.Index < d.graphs*chunks && c.Mode != "race"
@@ -350,3 +362,78 @@ func randLetters(r *rand.Rand, n int) string {
 }
 
 func genOptsSmall() gen.PkgOpts { return gen.PkgOpts{MaxMods: 6} }
+
+// runC07Race: several requests run CONCURRENTLY on one state directory inside the -race binary.
+// Only wrong outputs and non-canonical files are violations; a request that fails because a
+// concurrent squasher deleted a partial it had just listed is counted as an observation.
+func runC07Race(c *fw.Case) {
+	s := newScen(c, gen.PkgOpts{MaxMods: 7})
+	defer s.close()
+	outs := s.outputs()
+	if c.Violated() || len(outs) == 0 {
+		c.Count("packages_without_visible_output", 1)
+		return
+	}
+	for round := 0; round < 2; round++ {
+		n := 2 + c.R.Intn(2)
+		specs := make([]sim.RequestSpec, n)
+		results := make([]*sim.Result, n)
+		for i := range specs {
+			out := outs[c.R.Intn(len(outs))]
+			sp := s.genRequest(out)
+			sp.Prod = true
+			sp.NoExecLog = true
+			sp.StuckAfter = 40 * time.Second
+			if pl, err := s.cl.PlanFor(sp); err != nil || pl.KnownHangShape() {
+				sp.Stop = 0 // marks "skip"
+			}
+			specs[i] = sp
+		}
+		var wg sync.WaitGroup
+		for i := range specs {
+			if specs[i].Stop == 0 {
+				continue
+			}
+			wg.Add(1)
+			go func(i int) {
+				defer wg.Done()
+				results[i] = s.cl.Run(specs[i])
+			}(i)
+		}
+		wg.Wait()
+		for i, res := range results {
+			if res == nil {
+				continue
+			}
+			c.Count("concurrent_requests", 1)
+			extra := map[string]any{"concurrent_requests": specs, "this_request": specs[i]}
+			if res.Stuck {
+				c.Count("concurrent_requests_stuck_observed", 1)
+				continue
+			}
+			if res.Err != nil {
+				c.Count("concurrent_requests_failed_observed", 1)
+				c.Distinct("concurrent_failure_kinds", fw.NormalizeMsg(res.Err.Error()))
+				fs, _ := sim.CheckStream(res, s.ref(specs[i].Output), true)
+				s.report("C07/concurrent", fs, extra)
+				continue
+			}
+			fs, facts := sim.CheckStream(res, s.ref(specs[i].Output), false)
+			s.report("C07/concurrent", fs, extra)
+			if facts.NonEmpty > 0 {
+				c.Nontrivial(fmt.Sprintf("%v|%+v|%d", s.pkg.Describe(), specs[i], round))
+			}
+		}
+		if c.Violated() {
+			return
+		}
+	}
+	time.Sleep(20 * time.Millisecond)
+	for out, ref := range s.refs {
+		if ref == nil {
+			continue
+		}
+		af, _ := s.cl.AuditCache(ref, s.pkg)
+		s.report("C07/concurrent", af, map[string]any{"audited_against_output": out})
+	}
+}
